@@ -16,7 +16,7 @@ RULE = ("call lists of length 0..12 over a stateful reference object (counter, l
         "(call list, mode, serializer, server); non-trivial = list has >= 2 calls")
 ASSUMPTIONS = ["oneway-marked methods and iterator-returning methods are not batched (documented as unsupported)",
                "an exposure failure may surface at submission instead of at its position (the statement allows both)"]
-REQUIRED_REACH = ["batch_equal", "failure_at_position", "failure_at_submit", "oneway_equal", "state_compared", "reused_batchproxy_equal", "forgotten_oneway_batch_equal"]
+REQUIRED_REACH = ["batch_equal", "failure_at_position", "failure_at_submit", "oneway_equal", "state_compared", "reused_batchproxy_equal", "forgotten_oneway_batch_equal", "long_batches"]
 SHARD_TIMEOUT = {"quick": 200, "thorough": 2400}
 
 
@@ -344,6 +344,15 @@ def run_shard(shard, rec):
     rec.count("fixture_variant:" + fx.variant)
     try:
         n = 0
+        # a few long batches (the quantifier's N is not small: anything that treats a long batch differently - slicing, buffering - shows here)
+        for fail_at in (None, 0, 3, 63, 64, 70, 129):
+            if rec.should_stop(30):
+                break
+            length = r.choice([65, 100, 130, 200])
+            calls = gen_calls(r, length, fail_at if fail_at is None or fail_at < length else length - 1)
+            n += 1
+            check_case(fx, Ref, calls, fail_at in (3, 70), shard["serializer"], rec, n)
+            rec.count("long_batches")
         for _ in range(shard["n"]):
             length = r.randrange(0, 13)
             for fail_at in [None] + list(range(length)):
